@@ -10,6 +10,14 @@ CLAIMED = {
    text="Kernel-checked theorems over the executable planner model for every input and capacity (count, partition, equality with the classical clock queue, unreachable assertion); the model is tied to the code by exhaustive (n<=5 quick / n<=7 thorough, 4 ranks, 2 flags, all capacities) and random large-input differential runs through the public Update::new; a proved-sound verdict procedure (valid_plan) decides outputs that differ only in tie order.",
    ref="DESIGN.md section 6 C08", technique="Rocq proof (induction over the sorted queue) + model/implementation correspondence via extracted OCaml",
    note="Trusted: Coq kernel, extraction (ExtrOcamlBasic), harness and OCaml comparator; ranks embedded in Z; the Rust code is modelled by hand and tied by the correspondence run."),
+ "C10": dict(
+   text="Kernel-checked theorems over an exact u64 model of the trigger (window: some event among any max(1,period) consecutive events fires, from any counter state and for all non-zero draws; period 0/1 always fires; no overflow) and over the counting abstraction of one plain directory (count <= k + max(1, k/3) after every write, by an invariant on the remaining slack); period = capacity / MAINTENANCE_SCALE proved on the constant regenerated from the current source. Tie: scripted-draw differential runs of the real trigger and of real plain caches (file count after every write), release and debug builds.",
+   ref="DESIGN.md section 6 C10", technique="Rocq proof (invariant by induction over writes, nia on the 2^64 constants) + model/implementation correspondence through RNG hooks",
+   note="Trusted: Coq kernel, extraction, harness/hooks, regenerated-constant extractor; 64-bit usize; the draws are non-zero u64 (the code's reject-zero loop is modelled as one choice); maintenance leaving <= k files is C07's statement."),
+ "C12": dict(
+   text="Kernel-checked theorems: the mixers equal the SHA-256 derivation (Gallina SHA-256 validated on NIST vectors) of the key strings regenerated from the current source; shard_ids yields two distinct in-range ids by wrapping multiply-add then (n*x)>>64 with the collision fix-up, as a closed function of (hash, secondary, n); directory names are '.kismet_' + >=4 lowercase hex digits, injective, never a valid key, never the temp dir. Tie: boundary/random hash pairs x shard counts through the real sharded cache (where a put lands, temp dir offered, lookup/touch/overwrite in the secondary candidate, invisibility of other shards).",
+   ref="DESIGN.md section 6 C12", technique="Rocq proof (vm_compute for SHA-256 constants, arithmetic lemmas, hex round-trip) + model/implementation correspondence",
+   note="Trusted: Coq kernel (vm_compute), extraction, harness, constant extractor; 64-bit usize; probe ORDER is additionally checked on intercepted call traces once the shim-based checks run (C13/C20)."),
 }
 
 checks, na = [], []
